@@ -1,11 +1,72 @@
+/-
+C17 driver.  Case line:
+
+  io <wrap> <v|s> <read-script> <write-script> <prog>
+
+* `wrap`  : `t` plain `TcpStream`, `c` `TcpClientStream`, `o`/`O` `TimeoutStream` — the wrappers pass items
+            through unchanged, the model ignores the token;
+* `v|s`   : the socket has a real `poll_write_vectored` / only the default one;
+* scripts : comma separated, `-` = empty.  read: `d<hex>` `p` `e` `x`; write: `a<n>` `p` `x`;
+* `prog`  : `s<hex>` send, `S<hex>` send with a foreign destination, `p` poll once; then drain.
+
+Answer: the trace of every `poll_next` result (`m<hex>` `P` `I` `end` `err`), the bytes the socket
+accepted, the number of successful flushes and the number of sends refused by the full queue.
+-/
 import HickoryVerif.Drv.Proto
+import HickoryVerif.Model.TcpFraming
 
 namespace HickoryVerif.Drv.C17
-open HickoryVerif HickoryVerif.Drv
+open HickoryVerif HickoryVerif.Drv HickoryVerif.TcpFraming
 
 abbrev State := Unit
 def init : State := ()
 
-def step (s : State) (_toks : List String) : State × String := (s, "bad-op")
+def parseList {α} (f : String → Option α) (s : String) : Option (List α) :=
+  if s == "-" then some [] else (s.splitOn ",").mapM f
+
+def parseREv (t : String) : Option REv :=
+  match t.toList with
+  | ['p'] => some .pending
+  | ['e'] => some .eof
+  | ['x'] => some .err
+  | 'd' :: rest => (parseHex (String.ofList rest)).map .data
+  | _ => none
+
+def parseWEv (t : String) : Option WEv :=
+  match t.toList with
+  | ['p'] => some .pending
+  | ['x'] => some .err
+  | 'a' :: rest => (String.ofList rest).toNat?.map .accept
+  | _ => none
+
+def parseAct (t : String) : Option Act :=
+  match t.toList with
+  | ['p'] => some .poll
+  | 's' :: rest => (parseHex (String.ofList rest)).map (.send · true)
+  | 'S' :: rest => (parseHex (String.ofList rest)).map (.send · false)
+  | _ => none
+
+def showItem : Item → String
+  | .msg m => "m" ++ toHex m
+  | .pending => "P"
+  | .idle => "I"
+  | .endClean => "end"
+  | .err => "err"
+
+def handle (toks : List String) : Option String :=
+  match toks with
+  | ["io", _wrap, vec, rs, ws, prog] => do
+    let vec ← (if vec == "v" then some true else if vec == "s" then some false else none)
+    let rs ← parseList parseREv rs
+    let ws ← parseList parseWEv ws
+    let prog ← parseList parseAct prog
+    let c : Conn := { vec := vec, w := { ws := ws }, rs := rs }
+    let (trace, c') := runProg c prog
+    pure (",".intercalate (trace.map showItem) ++ " w=" ++ toHex c'.w.written ++ " f=" ++ toString c'.w.flushes
+      ++ " r=" ++ toString c'.w.rejected)
+  | _ => none
+
+def step (s : State) (toks : List String) : State × String :=
+  (s, (handle toks).getD "bad-op")
 
 end HickoryVerif.Drv.C17
